@@ -93,6 +93,7 @@ def unary_menu(p, n):
         {'op': 'concat', 'ps': [p, copy.deepcopy(p)], 'style': 'function'},
         {'op': 'intersperse', 'ps': [p, {'op': 'dict', 'kvs': [['x', 8], ['y', 9]]}], 'style': 'method'},
         {'op': 'zip', 'ps': [p, copy.deepcopy(p)]},
+        {'op': 'zip', 'ps': [p, {'op': 'list', 'xs': [4, 6]}], 'style': 'function'},       # (refused unless len(p) == 2)
         {'op': 'keyZip', 'ps': [p, {'op': 'map', 'f': {'fn': 'add', 'c': 1}, 'p': copy.deepcopy(p)}]},
         {'op': 'batch', 'n': 2, 'dropLast': False, 'p': p},
         {'op': 'batch', 'n': 2, 'dropLast': True, 'p': p},
@@ -112,6 +113,47 @@ def unary_menu(p, n):
         {'op': 'parMap', 'f': {'fn': 'add', 'c': 1}, 'w': 2, 'b': 2, 'p': p},
     ]
     return m
+
+
+def source_variants(p, limit=400):
+    """`p` with its sources replaced by the small sources: one leaf at a time, and every pair of leaves"""
+    leaves = []
+
+    def walk(q, path):
+        if q['op'] in ('list', 'dict'):
+            leaves.append(path)
+        if 'p' in q:
+            walk(q['p'], path + [('p', None)])
+        for i, c in enumerate(q.get('ps', [])):
+            walk(c, path + [('ps', i)])
+
+    def put(q, path, s):
+        q = copy.deepcopy(q)
+        if not path:
+            return copy.deepcopy(s)
+        cur = q
+        for k, i in path[:-1]:
+            cur = cur[k] if i is None else cur[k][i]
+        k, i = path[-1]
+        if i is None:
+            cur[k] = copy.deepcopy(s)
+        else:
+            cur[k][i] = copy.deepcopy(s)
+        return q
+
+    walk(p, [])
+    out = []
+    srcs = small_sources()
+    for lf in leaves:
+        for s in srcs:
+            out.append(put(p, lf, s))
+    for i in range(len(leaves)):
+        for j in range(i + 1, len(leaves)):
+            for s in srcs:
+                for t in srcs:
+                    if len(out) < limit:
+                        out.append(put(put(p, leaves[i], s), leaves[j], t))
+    return out[:limit]
 
 
 def hint_len(p):
@@ -352,7 +394,7 @@ def run(pp, rep):
             found = None
             # neighbourhood search: wrap / vary the disagreeing pipeline and ask the oracle
             # every case on which model and code disagree is a candidate first, then their neighbourhood
-            cand = [q for q, _ in disagreements[:200]] + [small] + unary_menu(small, hint_len(small))
+            cand = [q for q, _ in disagreements[:200]] + [small] + source_variants(small) + unary_menu(small, hint_len(small))
             for s in small_sources():
                 for q in unary_menu(s, hint_len(s)):
                     if q['op'] == small['op']:
